@@ -10,4 +10,6 @@ open Comrak.C07
 #print axioms outc_gaps_counterexample
 #print axioms table_escape_pipes
 #print axioms cm_prefix_after_literal_counterexample
-#print axioms cm_ol_marker_width_counterexample
+#print axioms pct2X_wellformed
+#print axioms item_exit_restores_prefix
+#print axioms output_keeps_frame
